@@ -72,3 +72,7 @@ open Csproto
 
 -- the Skip clause of C02 stated about the translated source: Props/C02Source.lean
 #print axioms Csproto.C02.Source.source_skip_field
+
+-- bool paths of the current source: DecodeBool / More / EncodeBool (the byte for false is stored, whatever the destination held)
+#print axioms Csproto.Bridge.EncoderFuncs.EncodeBool_refines
+#print axioms Csproto.Bridge.DecoderFuncs.DecodeBool_refines
